@@ -506,7 +506,9 @@ def shapes_tla(cat):
            "(* <<child, role, platform, inline>> in document order (duplicates kept);      *)",
            "(* refs: <<referrer, subject, artifact type>>; dtags: <<tag, on, to>>;         *)",
            "(* fbs: the fall-back referrer indexes <<index, subject>> a source without     *)",
-           "(* referrers API holds under the tag sha256-<hex of subject>; uniq / uniqfb:    *)",
+           "(* referrers API holds under the tag sha256-<hex of subject>; long: objects     *)",
+           "(* named by a sha512 digest (their fall-back tag is truncated, hence no digest  *)",
+           "(* tag); uniq / uniqfb:                                                         *)",
            "(* objects that exactly one descriptor, referrer edge or digest tag names       *)",
            "(* (without / with those fall-back indexes), used by (D)'s reduction.           *)",
            "EXTENDS TLC", ""]
@@ -540,6 +542,7 @@ def shapes_tla(cat):
         out.append("  kids |-> %s," % " @@\n           ".join(kids))
         out.append("  refs |-> %s," % setof("<<%s, %s, %s>>" % (s(a), s(b), s(c)) for a, b, c in refs))
         out.append("  dtags |-> %s," % setof("<<%s, %s, %s>>" % (s(d["sym"]), s(d["of"]), s(d["to"])) for d in (sh.get("dtags") or [])))
+        out.append("  long |-> %s," % setof(s(n["name"]) for n in sh["nodes"] if n.get("alg") == "sha512"))
         out.append("  fbs |-> %s," % setof("<<%s, %s>>" % (s("FB:" + x), s(x)) for x in subjects))
         # objects named by exactly one descriptor / referrer edge / digest tag (or being the root):
         # without and with the fall-back indexes of the source (which name every referrer once more)
